@@ -4,24 +4,79 @@
 set -u
 cd "$(dirname "$0")"
 export CARGO_NET_OFFLINE=true
-ROOT=/verif
-BINDIR=$ROOT/target/release
-mkdir -p $ROOT/target $ROOT/evidence $ROOT/replays
+# ROOT = where this script lives (/verif, or a snapshot of it made by `vp run`); a snapshot must
+# be given its own CARGO_TARGET_DIR and VERIF_OUT so that it does not disturb /verif itself
+ROOT=$(pwd)
+TARGET=${CARGO_TARGET_DIR:-/verif/target}
+export CARGO_TARGET_DIR=$TARGET
+BINDIR=$TARGET/release
+OUT=${VERIF_OUT:-/verif}
+mkdir -p $TARGET $OUT/evidence $OUT/replays
 
 # build one package of the harness workspace against /repo's current working tree
 # (path dependency: cargo detects edits under /repo and rebuilds what depends on them)
 build() {
-    local pkg="$1" log="$ROOT/target/build-$1.log"
-    ( cd $ROOT/harness && flock $ROOT/target/.build.lock cargo build --release -p "$pkg" >"$log.$$" 2>&1 )
+    local pkg="$1" log="$TARGET/build-$1.log"
+    ( cd $ROOT/harness && flock $TARGET/.build.lock cargo build --release -p "$pkg" >"$log.$$" 2>&1 )
     local rc=$?
     mv -f "$log.$$" "$log" 2>/dev/null
     return $rc
 }
 
 fail_build() {
-    grep -E "^error" -A 12 "$ROOT/target/build-$1.log" | head -60
-    echo "INCONCLUSIVE: $1 does not build against the current /repo tree (see $ROOT/target/build-$1.log)"
+    grep -E "^error" -A 12 "$TARGET/build-$1.log" | head -60
+    echo "INCONCLUSIVE: $1 does not build against the current /repo tree (see $TARGET/build-$1.log)"
     exit 2
+}
+
+# Coverage-guided stage (thorough tier of the branch-structured properties): libFuzzer + ASan drive the
+# same entropy decoders and check functions. Fixed work (-runs), fresh corpus seeded from VERIF_SEED.
+# A finding is confirmed by replaying it through the ordinary (uninstrumented) binary before it is reported.
+FUZZ_IDS="C05 C10 C11 C13 C14 C18"
+fuzz_stage() {
+    local id="$1" runs="$2" seed="${VERIF_SEED:-20261004}"
+    local work=$OUT/work; mkdir -p $work
+    local corp=$work/fuzz-corpus-$id art=$work/fuzz-artifacts-$id log=$work/fuzz-$id.log
+    rm -rf $corp $art; mkdir -p $corp $art
+    python3 - "$seed" "$corp" <<'PY'
+import random, sys
+r = random.Random(int(sys.argv[1]) & 0xffffffff)
+for k in range(4):
+    open(f"{sys.argv[2]}/seed{k}", "wb").write(bytes(r.getrandbits(8) for _ in range(9600)))
+open(f"{sys.argv[2]}/zeros", "wb").write(bytes(64))
+PY
+    local t0=$(date +%s)
+    ( cd $ROOT/harness && VERIF_FUZZ_ID=$id cargo +nightly fuzz run --fuzz-dir $ROOT/fuzz entropy $corp -- \
+        -runs=$runs -seed=$(( seed % 4294967295 + 1 )) -max_len=9600 -len_control=0 -artifact_prefix=$art/ -print_final_stats=1 ) >$log 2>&1
+    local rc=$? t1=$(date +%s)
+    if grep -q "could not compile\|error: failed to\|could not find" $log && ! grep -q "Done $runs runs\|FUZZ-VIOLATION\|ERROR: " $log; then
+        echo "fuzz stage for $id skipped: the instrumented target did not build (see $log)"
+        FUZZ_NOTE="skipped: instrumented build failed"; return 0
+    fi
+    if [ $rc -eq 0 ]; then
+        local execs=$(sed -n 's/^stat::number_of_executed_units: *//p' $log | tail -1)
+        local cov=$(grep -oE "cov: [0-9]+" $log | tail -1 | cut -d' ' -f2)
+        echo "fuzz stage $id: ${execs:-$runs} executions, coverage ${cov:-?} edges, corpus $(ls $corp | wc -l) files, no finding, $((t1-t0))s"
+        FUZZ_NOTE="libFuzzer+ASan: ${execs:-$runs} executions, ${cov:-0} edges covered, corpus $(ls $corp | wc -l), no finding, $((t1-t0))s"
+        return 0
+    fi
+    local rp=$(sed -n 's/^FUZZ-VIOLATION property=[A-Z0-9]* replay=//p' $log | head -1)
+    if [ -z "$rp" ]; then
+        local a=$(ls $art/* 2>/dev/null | head -1)
+        if [ -n "$a" ]; then
+            rp=$($BINDIR/vcheck from-bytes $id $a | sed -n 's/^replay=//p')
+            if grep -q "ERROR: AddressSanitizer" $log; then
+                grep -m3 "ERROR: AddressSanitizer\|SUMMARY" $log
+                echo "memory error detected by AddressSanitizer while executing the case in $rp"
+                echo "VIOLATION property=$id replay=$rp"; exit 1
+            fi
+        fi
+    fi
+    if [ -n "$rp" ] && ! $BINDIR/vcheck replay $rp >/dev/null 2>&1; then
+        $BINDIR/vcheck replay $rp | head -3
+        exit 1
+    fi
+    echo "INCONCLUSIVE: fuzz stage for $id ended with exit $rc without a reproducible finding (see $log)"; exit 2
 }
 
 pkg_of() { case "$1" in C19) echo vmatrix ;; *) echo vcheck ;; esac; }
@@ -37,7 +92,7 @@ case "$cmd" in
       *C17-static-build*.log)
         # the static Send + Sync assertions: the replay is the build itself
         if build static_c17; then echo "replay: static_c17 compiles, Send + Sync hold"; exit 0
-        else grep -E "^error" -A 12 $ROOT/target/build-static_c17.log | head -40; echo "VIOLATION property=C17 replay=$f"; exit 1; fi ;;
+        else grep -E "^error" -A 12 $TARGET/build-static_c17.log | head -40; echo "VIOLATION property=C17 replay=$f"; exit 1; fi ;;
     esac
     id=$(sed -n 's/.*"property": *"\(C[0-9]*\)".*/\1/p' "$f" | head -1)
     p=$(pkg_of "$id")
@@ -53,10 +108,10 @@ if [ "$ID" = "C17" ]; then
     # compile-time half of C17: Send + Sync of the interpolator types
     if ! build static_c17; then
         if build ndarray-interp; then
-            cp $ROOT/target/build-static_c17.log $ROOT/replays/C17-static-build.log
-            grep -E "^error" -A 12 $ROOT/target/build-static_c17.log | head -40
+            cp $TARGET/build-static_c17.log $OUT/replays/C17-static-build.log
+            grep -E "^error" -A 12 $TARGET/build-static_c17.log | head -40
             echo "static Send + Sync assertions no longer compile although the crate itself builds"
-            echo "VIOLATION property=C17 replay=$ROOT/replays/C17-static-build.log"
+            echo "VIOLATION property=C17 replay=$OUT/replays/C17-static-build.log"
             exit 1
         fi
         fail_build static_c17
@@ -64,4 +119,20 @@ if [ "$ID" = "C17" ]; then
 fi
 P=$(pkg_of "$ID")
 build $P || fail_build $P
+if [ "$ID" = "fuzz" ]; then :; fi
+case " $FUZZ_IDS " in
+  *" $ID "*)
+    if [ "$TIER" = "thorough" ] || [ "${VERIF_TIER:-}" = "thorough" ]; then
+        "$BINDIR/$P" "$ID" --tier "$TIER"; rc=$?
+        [ $rc -ne 0 ] && exit $rc
+        FUZZ_NOTE=""
+        fuzz_stage "$ID" "${VERIF_FUZZ_RUNS:-300000}"
+        python3 - "$OUT/evidence/$ID.json" "$FUZZ_NOTE" <<'PY'
+import json, sys
+p, note = sys.argv[1], sys.argv[2]
+d = json.load(open(p)); d["coverage"]["coverage_guided_stage"] = note; json.dump(d, open(p, "w"), indent=2)
+PY
+        exit 0
+    fi ;;
+esac
 exec "$BINDIR/$P" "$ID" --tier "$TIER"
